@@ -505,6 +505,13 @@ def validate_records(specdir, scratch, module, records, nshards=None, cfg=None, 
     records = list(records)
     if not records:
         return [], []
+    if os.environ.get('VERIF_DUMP_SAMPLES'):
+        seen = {}
+        for r in records:
+            seen.setdefault(str(r.get('k', '')), r)
+        os.makedirs(os.environ['VERIF_DUMP_SAMPLES'], exist_ok=True)
+        with open(os.path.join(os.environ['VERIF_DUMP_SAMPLES'], module + '.json'), 'w') as f:
+            json.dump(seen, f, default=str)
     nshards = nshards or NCPU
     idxs = shard(list(range(len(records))), nshards)
     envs = []
